@@ -73,7 +73,14 @@ class Project:
             txt = txt[: mo.start()] + propval + txt[mo.end() :]
         return txt
 
-    def dfs(self, target_name, state):
+    def dfs(self, target_name, state, done=None):
+        """Depth first search for a dependency loop.
+
+        state holds the targets on the current search path, done the
+        targets of which all dependencies were searched already.
+        """
+        if done is None:
+            done = set()
         state.add(target_name)
         target = self.get_target(target_name)
         for dep in target.dependencies:
@@ -81,7 +88,10 @@ class Project:
                 raise TaskError(
                     f"Dependency loop detected {target_name} -> {dep}"
                 )
-            self.dfs(dep, state)
+            if dep not in done:
+                self.dfs(dep, state, done)
+        state.remove(target_name)
+        done.add(target_name)
 
     def check_target(self, target_name):
         state = set()
